@@ -150,7 +150,8 @@ def run(ctx):
                         src = sources(an, op, deep=True)
                         got = {x[1].split('.')[-1] for x in src if x[0] == 'field' and ('@' not in x[1])}
                         # payload fields of the matched variant carry the variant's field name
-                        ok = fname in got or (fname.isdigit() and fname in got)
+                        ok = (fname in got or (fname.isdigit() and fname in got)) and any(x[0] == 'arg' for x in src) and \
+                            not any(x[0] == 'call' and x[1].endswith('Default>::default') for x in src)
                         ctx.ob('R19.2', '%s::%s.%s comes from the same-named field' % (short, lab, fname), ok, ctx.where(b, s.line), 'from %s' % sorted(got),
                                construct='from-field:%s:%s.%s' % (b.name, lab, fname))
         else:
@@ -167,7 +168,9 @@ def run(ctx):
                             if lf and any(x[0] == 'agg' and x[1].rsplit('::', 1)[0].split('::')[-1] == sblk.term.j['adt'].split('::')[-1] for x in src):
                                 got.add(lf[1])
                     consts = [x for x in src if x[0] in ('const',) and x[1] not in ('()',)]
-                    ok = fname in got
+                    ctrl = any(x[0] == 'agg' for x in src) and not any(x[0] == 'field' and x[1].split('.')[-1] == fname for x in src)
+                    from_arg = any(x[0] == 'arg' for x in src) and not any(x[0] == 'call' and x[1].endswith('Default>::default') for x in src)
+                    ok = fname in got and (from_arg or ctrl)
                     ctx.ob('R19.2', '%s.%s comes from the same-named field' % (short, fname), ok, ctx.where(b, s.line), 'from %s' % sorted(got), construct='from-field:%s:%s' % (b.name, fname))
             # nested enum matches inside (protocol): variant names preserved
             for blk in b.blocks:
